@@ -38,6 +38,95 @@ pub fn run_history_list(
     })
 }
 
+/// Catalogue: every target state of `grids::state_prefix` x a representative of every operation that can
+/// allocate or call back into user code. The enumerators run these in addition to generated histories, so that
+/// each (operation, storage state) pair is certainly reached.
+pub fn catalogue(callbacks_only: bool) -> Vec<History> {
+    use super::grids::{N_STATES, state_prefix};
+    let mut out = Vec::new();
+    let it = |kind, items: &[&str], slots: &[u8], hint| IterSpec { kind, items: items.iter().map(|s| s.to_string()).collect(), slots: slots.to_vec(), hint, panic_at: None };
+    let pieces = |p: &[&str]| Pieces { pieces: p.iter().map(|s| s.to_string()).collect(), err_at: None, panic_at: None };
+    for state in 0..N_STATES {
+        let (prefix, _) = state_prefix(state);
+        let mut ops: Vec<Op> = Vec::new();
+        for mask in [u64::MAX, 0x5555_5555_5555_5555, u64::MAX - 1, 0] {
+            ops.push(Op::Retain { slot: 0, r: RetainSpec { mask, panic_at: None }, try_: mask % 2 == 0 });
+        }
+        for hint in [None, Some(3usize), Some(usize::MAX), Some(1 << 60), Some(40)] {
+            for (kind, items) in [
+                (IterKind::Char, &["ab", "é€", "0123456789abcdefghij"][..]),
+                (IterKind::RefChar, &["𝄞x"][..]),
+                (IterKind::Str, &["ab", "", "0123456789abcdefghij"][..]),
+                (IterKind::String, &["é€", "tail"][..]),
+                (IterKind::Lean, &["inline", "a heap item longer than sixteen"][..]),
+            ] {
+                ops.push(Op::Extend { slot: 0, it: it(kind, items, &[], hint) });
+            }
+            ops.push(Op::Extend { slot: 0, it: it(IterKind::LeanSlots, &[], &[1, 0, 2], hint) });
+            ops.push(Op::Collect { slot: 3, it: it(IterKind::Char, &["collected text of 25 bytes!"], &[], hint) });
+        }
+        ops.push(Op::Collect { slot: 3, it: it(IterKind::LeanSlots, &[], &[0, 1], None) });
+        ops.push(Op::Write { slot: 0, d: pieces(&["a", "é€", "0123456789abcdefghij"]) });
+        ops.push(Op::Display { slot: 3, d: pieces(&["0123456789", "abcdefghij", "tail"]), try_: false });
+        ops.push(Op::Display { slot: 3, d: pieces(&["short"]), try_: true });
+        if !callbacks_only {
+            for try_ in [false, true] {
+                ops.push(Op::Push { slot: 0, ch: '𝄞', try_ });
+                ops.push(Op::PushStr { slot: 0, text: Text::Lit("0123456789abcdefghij".into()), try_ });
+                ops.push(Op::PushStr { slot: 0, text: Text::Fill { delta: 1, unit: 'f' }, try_ });
+                ops.push(Op::Insert { slot: 0, idx: Idx::Raw(0), ch: 'é', try_ });
+                ops.push(Op::InsertStr { slot: 0, idx: Idx::Boundary(30000), text: Text::Lit("inserted text, 23 bytes".into()), try_ });
+                ops.push(Op::Remove { slot: 0, idx: Idx::Raw(0), try_ });
+                ops.push(Op::Pop { slot: 0, try_ });
+                ops.push(Op::Truncate { slot: 0, n: Idx::Raw(2), try_ });
+                ops.push(Op::Reserve { slot: 0, n: Size::Abs(100), try_ });
+                ops.push(Op::Reserve { slot: 0, n: Size::Abs(0), try_ });
+                ops.push(Op::ShrinkTo { slot: 0, n: Size::LenPlus(1), try_ });
+                ops.push(Op::ShrinkToFit { slot: 0, try_ });
+                ops.push(Op::WithCapacity { slot: 3, n: Size::Abs(40), try_ });
+                ops.push(Op::FromInt { slot: 3, ty: IntTy::I128, nonzero: false, v: "-170141183460469231731687303715884105728".into(), try_ });
+            }
+            ops.push(Op::Clear { slot: 0 });
+            ops.push(Op::AddAssign { slot: 0, text: Text::Lit("0123456789abcdefghij".into()) });
+            ops.push(Op::Add { slot: 0, text: Text::Lit("0123456789abcdefghij".into()) });
+            ops.push(Op::FromText { slot: 3, via: Via::Parse, text: "a text of twenty-five bytes".into() });
+            ops.push(Op::FromText { slot: 3, via: Via::ToLeanStr, text: "a text of twenty-five bytes".into() });
+            ops.push(Op::FromUtf8Lossy { slot: 3, hex: "6161616161616161616161616161616161ffe0a0".into() });
+            ops.push(Op::FromUtf16 { slot: 3, units: vec![0x41; 20], lossy: true });
+            ops.push(Op::FromUtf16 { slot: 3, units: vec![0x41; 20], lossy: false });
+            ops.push(Op::CloneFrom { slot: 1, from: 0 });
+        }
+        for op in ops {
+            let mut h = prefix.clone();
+            h.push(op);
+            h.push(Op::Push { slot: 0, ch: 'z', try_: false });
+            h.push(Op::Compare { a: 0, b: 1 });
+            out.push(History { ops: h, plan: Plan::default() });
+        }
+    }
+    out
+}
+
+fn run_catalogue(prop: &'static str, list: &[History], case: &(dyn Fn(&History, &mut CurrentFile) -> (CaseStats, Option<Violation>) + Sync)) -> Merged {
+    run_parallel(|shard| {
+        let mut m = Merged::new();
+        let mut cur = CurrentFile::open(prop, shard);
+        let mut i = shard;
+        while i < list.len() {
+            let (st, v) = case(&list[i], &mut cur);
+            m.absorb(st);
+            if let Some(v) = v {
+                m.violation = Some(v);
+                break;
+            }
+            i += SHARDS;
+        }
+        cur.clear();
+        *m.counters.entry("catalogue_histories".into()).or_insert(0) += (list.len() / SHARDS) as u64;
+        m
+    })
+}
+
 // ------------------------------------------------------------------------------------------ C05
 
 pub fn fault_case(prop: &'static str, pairs: bool) -> impl Fn(&History, &mut CurrentFile) -> (CaseStats, Option<Violation>) + Sync {
@@ -48,9 +137,8 @@ pub fn fault_case(prop: &'static str, pairs: bool) -> impl Fn(&History, &mut Cur
         if let Some(v) = account(prop, h, &clean, false, &mut stats) {
             return (stats, Some(v));
         }
-        if !clean.failures.is_empty() {
-            return (stats, None);
-        }
+        // failures of other properties in the clean run do not stop the enumeration (the runner keeps going past
+        // them); the variants are judged by this check's own clauses
         let n = clean.requests;
         for k in 0..n {
             let hk = History { ops: h.ops.clone(), plan: Plan { faults: vec![k] } };
@@ -84,7 +172,8 @@ pub fn fault_case(prop: &'static str, pairs: bool) -> impl Fn(&History, &mut Cur
 
 pub fn c05(tier: Tier, seed: u64) -> Verdict {
     let t0 = Instant::now();
-    let mut merged = Merged::new();
+    let cat = catalogue(false);
+    let mut merged = run_catalogue("C05", &cat, &fault_case("C05", true));
     let n = tier.pick(5000, 60000);
     let profiles = vec![
         (Profile::faults(), n),
@@ -92,6 +181,9 @@ pub fn c05(tier: Tier, seed: u64) -> Verdict {
         (Profile { w_static: 16, w_convert: 10, ..Profile::faults() }, n / 2),
     ];
     for (i, (p, cases)) in profiles.into_iter().enumerate() {
+        if merged.violation.is_some() {
+            break;
+        }
         let m = run_sharded("C05", seed, i as u64, cases, || history_strategy(&p), fault_case("C05", tier == Tier::Thorough));
         merged.merge(m);
         if merged.violation.is_some() {
@@ -104,7 +196,7 @@ pub fn c05(tier: Tier, seed: u64) -> Verdict {
         tier,
         seed,
         "fault_enumeration",
-        "for each proptest-generated history (3-14 operations, targets inline/static/heap-unique/heap-shared) the crate's allocator requests are counted and the history is re-run once per request index with that request failing (thorough: also every ordered pair); evaluations = executions; non-trivial = the injected fault fired and the faulted call reported it (Err or panic); distinct = distinct (history, fault plan) digests",
+        "a catalogue (9 target states x every allocating or callback-taking operation, faults singly and in pairs) and, for each proptest-generated history (3-14 operations, targets inline/static/heap-unique/heap-shared) the crate's allocator requests are counted and the history is re-run once per request index with that request failing (thorough: also every ordered pair); evaluations = executions; non-trivial = the injected fault fired and the faulted call reported it (Err or panic); distinct = distinct (history, fault plan) digests",
         ASSUME_HIST,
         &merged,
         t0.elapsed().as_secs_f64(),
@@ -143,9 +235,8 @@ pub fn panic_case(prop: &'static str, max_k: u16) -> impl Fn(&History, &mut Curr
         if let Some(v) = account(prop, h, &clean, false, &mut stats) {
             return (stats, Some(v));
         }
-        if !clean.failures.is_empty() {
-            return (stats, None);
-        }
+        // failures of other properties in the clean run do not stop the enumeration (the runner keeps going past
+        // them); the variants are judged by this check's own clauses
         for i in 0..h.ops.len() {
             let mut probe = h.ops[i].clone();
             if !set_panic_at(&mut probe, None) {
@@ -173,11 +264,21 @@ pub fn panic_case(prop: &'static str, max_k: u16) -> impl Fn(&History, &mut Curr
 
 pub fn c18(tier: Tier, seed: u64) -> Verdict {
     let t0 = Instant::now();
-    let mut merged = Merged::new();
+    let cat = catalogue(true);
+    let mut merged = run_catalogue("C18", &cat, &panic_case("C18", 40));
     let n = tier.pick(700, 14000);
     let base = Profile { callback_panics: false, ..Profile::panics() };
-    let profiles = vec![(base.clone(), n), (Profile { w_clone: 26, w_static: 10, ..base.clone() }, n), (Profile { max_text: 300, ..base }, n / 2)];
+    let profiles = vec![
+        (base.clone(), n),
+        (Profile { w_clone: 26, w_static: 10, ..base.clone() }, n),
+        (Profile { max_text: 300, ..base.clone() }, n / 2),
+        // iterators whose size hint cannot be reserved: extend ignores the failed reservation and keeps pushing
+        (Profile { lying_hints: true, w_clone: 26, w_trunc: 16, w_extend: 30, ..base }, n),
+    ];
     for (i, (p, cases)) in profiles.into_iter().enumerate() {
+        if merged.violation.is_some() {
+            break;
+        }
         let m = run_sharded("C18", seed, i as u64, cases, || history_strategy(&p), panic_case("C18", tier.pick(24, 64)));
         merged.merge(m);
         if merged.violation.is_some() {
@@ -189,7 +290,7 @@ pub fn c18(tier: Tier, seed: u64) -> Verdict {
         tier,
         seed,
         "fault_enumeration",
-        "for each proptest-generated history every callback-taking operation (retain, every Extend and FromIterator impl, to_lean_string/write! of a piecewise Display) is re-run with its callback panicking at invocation k for k = 0,1,.. until the panic no longer fires; oracle = String after the identical panicking call + C02/C03 invariants + empty heap at the end; non-trivial = the panic fired with k >= 1 or on a non-inline target; distinct = distinct (history, panic position) digests",
+        "a catalogue (9 target states x retain masks, every Extend kind x honest / small / unreservable size hints, collect, write!, to_lean_string) and, for each proptest-generated history, every callback-taking operation (retain, every Extend and FromIterator impl, to_lean_string/write! of a piecewise Display) is re-run with its callback panicking at invocation k for k = 0,1,.. until the panic no longer fires; oracle = String after the identical panicking call + C02/C03 invariants + empty heap at the end; non-trivial = the panic fired with k >= 1 or on a non-inline target; distinct = distinct (history, panic position) digests",
         ASSUME_HIST,
         &merged,
         t0.elapsed().as_secs_f64(),
